@@ -50,14 +50,14 @@ class Layout:
     def add_astdump(self, data):
         for s in data["structs"]:
             f = s["fields"]
-            self.structs[s["name"]] = f["names"] if f["kind"] == "named" else None
+            self.structs[s["name"]] = [x[2:] if x.startswith("r#") else x for x in f["names"]] if f["kind"] == "named" else None
             self.qual[s["name"]] = s["mod"]
         for e in data["enums"]:
             self.enums[e["name"]] = [v["name"] for v in e["variants"]]
             self.qual[e["name"]] = e["mod"]
             for v in e["variants"]:
                 f = v["fields"]
-                self.enum_fields[(e["name"], v["name"])] = f["names"] if f["kind"] == "named" else None
+                self.enum_fields[(e["name"], v["name"])] = [x[2:] if x.startswith("r#") else x for x in f["names"]] if f["kind"] == "named" else None
         for i in data["impls"]:
             self.impls[(i["file"], i["line"], i["col"])] = {"trait": i["trait"], "self_ty": i["self_ty"].lstrip("&")}
         for t in data["traits"]:
